@@ -12,5 +12,7 @@ grep -c CAUGHT /tmp/gfreg-seeds.txt | sed 's/^/  caught: /'; grep -v CAUGHT /tmp
 for DIR in "$@"; do
   echo "== refactorings in $DIR"
   ls -d $DIR/C*-r*/ 2>/dev/null | xargs -P 8 -I{} bash -c 'd={}; r=$(./matrix.sh $d/patch.diff 2>&1 | head -1); echo "$(basename $d) $r"' | sort > /tmp/gfreg-ref.txt
-  XX
+  grep -c "ALARMS: none" /tmp/gfreg-ref.txt | sed 's/^/  silent: /'
+  grep -c "SKIPPED" /tmp/gfreg-ref.txt | sed 's/^/  no longer applicable (context changed by a later fix commit): /'
+  grep -v "ALARMS: none" /tmp/gfreg-ref.txt | grep -v SKIPPED | sed 's/^/  FALSE ALARM: /'
 done
